@@ -45,3 +45,5 @@ def run(rep, tier):
     ]
     runner.decide(rep, "vt.ch.h_c30", PATH, specs, timeout=t)
     rep.sample({"harness": "c_accept(w, s)", "meaning": "real set_decimal_config() under env {WIDTH: w, SCALE: s}, 99 = not defined"})
+    from vt.props import _c30_round
+    _c30_round.run_round(rep, tier)
